@@ -11,6 +11,7 @@ from .clustersim import Sim, EnterProc
 from .monitors import Ext, FAIL_NAMES
 
 import pysyncobj.batteries as B
+from pysyncobj.syncobj import SyncObjException
 
 
 class LockThreads(object):
@@ -62,6 +63,7 @@ class LockMonitor(Ext):
         self.tries = []              # outstanding / finished tryAcquire attempts
         self.denied_since = {}       # client key -> virtual time since which no prolongation was granted
         self.told_failed = {}        # (client, lock) -> step at which the client was told it failed
+        self.last_op = {}            # (client, lock) -> 'try' / 'rel': what the application called last
 
     def holders(self, lid):
         out = []
@@ -106,9 +108,11 @@ class LockMonitor(Ext):
             self.mon.obs['exclusion_checks'] += 1
             if len(h) > 1:
                 stale = [k for k in h if self.own_release_pending(k, lid)]
-                raise Violation('C16', 'two_holders', 'lock %r is considered held by %r at t=%.3f%s' % (
-                    lid, h, CLK.now, ('; the replica of %r has not yet applied a committed release issued in its own name' % stale) if stale else ''),
-                    n=len(h), holder_has_not_applied_its_own_committed_release=bool(stale))
+                gave_up = [k for k in h if self.last_op.get((k, lid)) == 'rel']
+                raise Violation('C16', 'two_holders', 'lock %r is considered held by %r at t=%.3f%s%s' % (
+                    lid, h, CLK.now, ('; the replica of %r has not yet applied a committed release issued in its own name' % stale) if stale else '',
+                    ('; the last thing the client on %r did with this lock was to call release()' % gave_up) if gave_up else ''),
+                    n=len(h), holder_has_not_applied_its_own_committed_release=bool(stale), a_holder_called_release_last=bool(gave_up))
             if h:
                 self.mon.sit['lock_held'] += 1
         # a client that was told "failed" must not consider the lock its own afterwards (until it tries again)
@@ -153,6 +157,8 @@ class LockSim(Sim):
     def start_proc(self, key, addr, others, inc=0, first_tick=True):
         p = Sim.start_proc(self, key, addr, others, inc=inc, first_tick=first_tick)
         m, ident = self._last_manager
+        for k in [k for k in self.lm.last_op if k[0] == key]:
+            del self.lm.last_op[k]         # (a new process, a new client)
         self.clients[key] = m
         self.client_thread[key] = ident
         return p
@@ -167,9 +173,10 @@ class LockSim(Sim):
             lid = rng.choice(self.lock_ids)
             c = rng.random()
             if c < 0.55:
-                return ('L', 'try', p.key, lid)
+                # (one in ten is the blocking form whose timeout expires before the reply: the caller gets an exception)
+                return ('L', 'try_sync' if self.cfg.get('sync_calls', False) and rng.random() < 0.1 else 'try', p.key, lid)
             if c < 0.85:
-                return ('L', 'rel', p.key, lid)
+                return ('L', 'rel_sync' if self.cfg.get('sync_calls', False) and rng.random() < 0.25 else 'rel', p.key, lid)
             if c < 0.93:
                 return ('L', 'starve', p.key)
             return ('L', 'feed', p.key)
@@ -209,6 +216,7 @@ class LockSim(Sim):
         if what == 'try':
             rec = {'key': key, 'lock': lid, 't': CLK.now, 'step': self.step, 'res': None}
             self.lm.tries.append(rec)
+            self.lm.last_op[(key, lid)] = 'try'
             self.lm.told_failed.pop((key, lid), None)
 
             def cb(res, err, rec=rec):
@@ -247,10 +255,44 @@ class LockSim(Sim):
             self.run_node(p, lambda: c.tryAcquire(lid, callback=cb))
             self.stats['try'] += 1
             return p
-        if what == 'rel':
+        if what == 'try_sync':
+            # tryAcquire(sync=True) whose timeout is over before the reply: it raises, the caller does not have the lock
+            rec = {'key': key, 'lock': lid, 't': CLK.now, 'step': self.step, 'res': None}
+            self.lm.tries.append(rec)
+            self.lm.last_op[(key, lid)] = 'try'
+            self.lm.told_failed.pop((key, lid), None)
+
+            def blocking_try():
+                try:
+                    got = c.tryAcquire(lid, sync=True, timeout=0.0)
+                except SyncObjException as e:
+                    got = False
+                    self.mon.sit['blocking_try_raised'] += 1
+                rec['res'] = (bool(got), 'sync', CLK.now)
+                if got:
+                    raise Violation('C16', 'told_acquired_but_not_holder', 'tryAcquire(%r, sync=True, timeout=0) on %s returned True at once'
+                                    % (lid, key))
+                mine = [t for t in self.lm.tries if t['key'] == key and t['lock'] == lid]
+                if all(t['res'] is not None and not t['res'][0] for t in mine):
+                    self.lm.told_failed[(key, lid)] = (self.step, CLK.now)
+            self.run_node(p, blocking_try)
+            self.stats['try_sync'] += 1
+            return p
+        if what in ('rel', 'rel_sync'):
             before = {l: self.lm.holders(l) for l in self.lock_ids}
             mine = key in before.get(lid, [])
-            self.run_node(p, lambda: c.release(lid))
+            self.lm.last_op[(key, lid)] = 'rel'
+            if what == 'rel':
+                self.run_node(p, lambda: c.release(lid))
+            else:
+                # release(sync=True) whose timeout is over before the reply: it raises, the request is on its way nevertheless
+                def blocking_release():
+                    try:
+                        c.release(lid, sync=True, timeout=0.0)
+                    except SyncObjException:
+                        self.mon.sit['blocking_release_raised'] += 1
+                self.run_node(p, blocking_release)
+                self.stats['release_sync'] += 1
             self.stats['release'] += 1
             if not mine:
                 self.mon.sit['release_by_non_holder'] += 1
